@@ -63,17 +63,24 @@ SRMay(c, E, in) == IF SRActive(c, E, in) /\ c.srEnf = 100
                            ELSE {e \in SRCand(c, E, in) : SRDev(c, E, in, e) >= 0 /\ SRL(c, E, in, e) = SRR(c, E, in)})
                      ELSE {}
 
+\* The code computes float64(k)/float64(n)*100 and compares it with an integer percentage.  When the exact
+\* value k*100/n is an integer P, the float result is exactly P for every n in Divs and every n <= 12, except
+\* for k/n = 11/20 (55.00000000000001); measured by enumeration in IEEE-754 double arithmetic.  Only there
+\* (and for n outside the enumerated range) an exact tie accepts either outcome (R2).
+FloatTieInexact(k, n) == 20 * k = 11 * n \/ ~(n \in Divs \/ n <= 12)
+
 FPCand(c, E, in) == IF c.fp THEN {e \in E : Vol(in, e) >= c.fpRV /\ Vol(in, e) > 0} ELSE {}
 FPActive(c, E, in) == c.fp /\ Cardinality(FPCand(c, E, in)) >= c.fpMin
 FPMust(c, E, in) == IF FPActive(c, E, in) /\ c.fpEnf = 100
                       THEN {e \in FPCand(c, E, in) : in[e][2] * 100 > c.fpTh * Vol(in, e)} ELSE {}
 FPMay(c, E, in) == IF FPActive(c, E, in) /\ c.fpEnf = 100
-                     THEN FPMust(c, E, in) \cup {e \in FPCand(c, E, in) : in[e][2] * 100 = c.fpTh * Vol(in, e) /\ Vol(in, e) \notin Dyadic}
+                     THEN FPMust(c, E, in) \cup {e \in FPCand(c, E, in) : in[e][2] * 100 = c.fpTh * Vol(in, e) /\ FloatTieInexact(in[e][2], Vol(in, e))}
                      ELSE {}
 
-(* max_ejection_percent: "no ejection while the ejected share is at or above it" *)
+(* max_ejection_percent: "no ejection while the ejected share is at or above it".  The share is
+   evaluated before EACH individual ejection of a pass: ejections made earlier in the same interval count. *)
 Blocked(c, k, n) == IF Mutant = 1 THEN k * 100 > c.maxPct * n ELSE k * 100 >= c.maxPct * n
-CapTie(c, k, n) == k * 100 = c.maxPct * n /\ n \notin Dyadic /\ k # 0 /\ k # n
+CapTie(c, k, n) == k * 100 = c.maxPct * n /\ FloatTieInexact(k, n)
 \* j further ejections are possible starting from k ejected of n
 Allowed(c, k, n, j) == \A i \in 0..(j - 1) : ~Blocked(c, k + i, n) \/ CapTie(c, k + i, n)
 \* X is a possible outcome of one pass over the endpoints that fail (must / may), in any order
@@ -87,7 +94,7 @@ Due(c, t, a, m) == t > a + Dur(c, m)
 
 ----------------------------------------------------------------------------
 Zero(E) == [e \in E |-> <<0, 0>>]
-NoGh == [kind |-> "none", newEj |-> {}, c0 |-> 0, n |-> 0, ok |-> {}, stay |-> {}]
+NoGh == [kind |-> "none", newEj |-> {}, c0 |-> 0, n |-> 0, ok |-> {}, stay |-> {}, cap |-> FALSE]
 
 NoopCfg == [sr |-> FALSE, srF |-> 0, srRV |-> 1, srMin |-> 0, srEnf |-> 0, fp |-> FALSE, fpTh |-> 0, fpRV |-> 1,
             fpMin |-> 0, fpEnf |-> 0, maxPct |-> 0, base |-> 0, maxT |-> 0]
@@ -141,16 +148,20 @@ Interval(Xs, Xf) ==
      /\ cnt' = k2 - Cardinality(un)
      /\ gh' = [kind |-> "interval", newEj |-> {e \in Xs \cup Xf : ~ej[e]}, c0 |-> c0, n |-> n,
                ok |-> SRMay(cfg, eps, in) \cup FPMay(cfg, eps, in),
-               stay |-> {e \in eps : ej'[e]}]
+               stay |-> {e \in eps : ej'[e]},
+               \* a failing endpoint was left alone because the budget was used up by then
+               cap |-> SRMust(cfg, eps, in) \ Xs # {} \/ FPMust(cfg, eps, in) \ Xf # {}]
      /\ UNCHANGED <<eps, now, cfg, started>>
 
 ----------------------------------------------------------------------------
 Ejected == {e \in eps : ej[e]}
 \* Level A
 I_OnlyIfCriterion == gh.newEj \subseteq gh.ok
+\* before the j-th new ejection of the interval (in whatever order the endpoints were visited) c0 + j - 1
+\* of the n current endpoints were ejected: that share must be below max_ejection_percent
 I_OnlyBelowMaxPercent ==
-  gh.newEj # {} => LET k == gh.c0 + Cardinality(gh.newEj) - 1
-                   IN k * 100 < cfg.maxPct * gh.n \/ CapTie(cfg, k, gh.n)
+  \A j \in 1..Cardinality(gh.newEj) :
+     LET k == gh.c0 + j - 1 IN k * 100 < cfg.maxPct * gh.n \/ CapTie(cfg, k, gh.n)
 I_OnlyAtInterval == gh.kind # "interval" => gh.newEj = {}
 I_UnejectWhenElapsed == gh.kind = "interval" => \A e \in Ejected : ~Due(cfg, now, at[e], mult[e])
 I_NoopNothingEjected == (eps # {} /\ Noop(cfg)) => Ejected = {}
